@@ -137,6 +137,16 @@ func (e *emitter) quoteFor(n *Node) byte {
 func (e *emitter) expr(n *Node, minPrec int) {
 	e.markExpr(false)
 	need := n.prec() < minPrec
+	if n.Paren > 0 {
+		// explicit redundant pairs that belong to the tree: the same in every rendering of it
+		n.Paren--
+		e.punct("(", nil)
+		e.markExpr(true)
+		e.expr(n, pAsg)
+		e.punct(")", nil)
+		n.Paren++
+		return
+	}
 	if need || (e.o.Parens > 0 && e.r.Float64() < e.o.Parens) {
 		e.punct("(", nil)
 		e.markExpr(true)
